@@ -7,6 +7,8 @@ import (
 
 	"github.com/brimdata/super"
 	"github.com/brimdata/super/internal/verif"
+	"github.com/brimdata/super/runtime/sam/expr/agg"
+	"github.com/brimdata/super/zcode"
 )
 
 // verif:desc C20-O6 named and unnamed values of the SAME underlying type in one input (top level, so the fused type is a union such as (int64,foo=int64)): 2-3 values drawn from {int64, foo=int64, bar=int64, string, foo2=string} through fuse.Fuser (agg.Schema.Mixin/merge, expr.ConstShaper.Eval with its per-input-type shaper table, newShaper/bestUnionTag/castToUnion), in memory or through the spill file: one output per input in order, all of one type; output k, untagged one level, has EXACTLY input k's type - a named value stays named, an unnamed one stays unnamed, whatever came before it - and input k's bytes.
@@ -49,6 +51,76 @@ func VerifH_C20_O6_named_and_unnamed_members() {
 		}
 		verif.Assert(mt == inTypes[i], "member-type-preserved")
 		verif.Assert(bytes.Equal(mb, inBodies[i]), "bytes-preserved")
+	}
+	out, err := f.Read()
+	verif.Assert(err == nil && out == nil, "no-extra-output")
+	verif.Reach("end")
+}
+
+// verif:desc C20-O7 typed NULL inputs count: a top-level null whose type adds something the other values do not (null({a:int64,b:string}) between {a:1} and {c:2}; null(string) between integers; an input of nulls only) is mixed into the fused type by BOTH the fuse operator's Fuser (agg.Schema.Mixin) and the fuse() aggregate (agg fuse.Consume/Result): 2-3 values from {{a:int64}, null {a:int64,b:string}, {c:int64}, int64, null string, null {a:int64}} through fuse.Fuser: one output per input in order, all of ONE type, that type is what fuse() reports for the same input, a null input gives a null output.
+// verif:bounds 2-3 values, each one of 6 templates (Choose), concrete leaves; memMaxBytes 0 or 1000
+// verif:outside nulls nested inside non-null values (C20-O2/O3/O5); partial aggregation of fuse() (C10-O7)
+func VerifH_C20_O7_typed_null_inputs() {
+	zctx := zed.NewContext()
+	ra := zctx.MustLookupTypeRecord([]zed.Field{zed.NewField("a", zed.TypeInt64)})
+	rab := zctx.MustLookupTypeRecord([]zed.Field{zed.NewField("a", zed.TypeInt64), zed.NewField("b", zed.TypeString)})
+	rc := zctx.MustLookupTypeRecord([]zed.Field{zed.NewField("c", zed.TypeInt64)})
+	one := zcode.Append(nil, zed.EncodeInt(1))
+	tmpl := []zed.Value{
+		zed.NewValue(ra, one),
+		zed.NewValue(rab, nil),
+		zed.NewValue(rc, one),
+		zed.NewInt64(7),
+		zed.NewValue(zed.TypeString, nil),
+		zed.NewValue(ra, nil),
+	}
+	memMax := []int{0, 1000}[verif.Choose("memMax", 2)]
+	f := NewFuser(zctx, memMax)
+	pattern, err := agg.NewPattern("fuse", true)
+	verif.Assert(err == nil, "agg-fuse-exists")
+	af := pattern()
+	n := 2 + verif.Choose("n", 2)
+	var in []zed.Value
+	for i := 0; i < n; i++ {
+		v := tmpl[verif.Choose("val"+string(rune('0'+i)), len(tmpl))]
+		in = append(in, v)
+		verif.Assert(f.Write(v) == nil, "write-no-error")
+		af.Consume(v)
+	}
+	tv := af.Result(zctx)
+	var aggType zed.Type
+	if !tv.IsNull() {
+		aggType, err = zctx.LookupByValue(tv.Bytes())
+		verif.Assert(err == nil, "agg-fuse-result-is-a-type")
+	}
+	verif.Assert(aggType != nil, "fuse-aggregate-reports-a-type")
+	for i := 0; i < n; i++ {
+		out, err := f.Read()
+		verif.Assert(err == nil && out != nil, "one-output-per-input")
+		if out == nil || err != nil {
+			return
+		}
+		// known region (the XXX note in runtime/sam/op/fuse/ztests/mixed.yaml): the fused type
+		// is a union one of whose members is a record MERGED from several input records, and
+		// this input is one of those records - the shaper finds no member with its type and
+		// passes the value through unshaped
+		region := ""
+		if union, ok := aggType.(*zed.TypeUnion); ok && zed.IsRecordType(in[i].Type()) && !in[i].IsNull() {
+			member := false
+			for _, t := range union.Types {
+				if t == in[i].Type() {
+					member = true
+				}
+			}
+			if !member {
+				region = "/record-into-union-with-merged-record"
+			}
+		}
+		verif.Assert(out.Type() == aggType, "operator-type-is-the-aggregates-type"+region)
+		verif.Assert(out.IsNull() == in[i].IsNull(), "null-stays-null")
+		if in[i].IsNull() {
+			verif.Reach("typed-null-input")
+		}
 	}
 	out, err := f.Read()
 	verif.Assert(err == nil && out == nil, "no-extra-output")
